@@ -37,3 +37,13 @@ func vFillBytes(p []byte, s string) int                { return 0 }
 func vBytesRead(p []byte) string                       { return "" }
 func vConcatIs(parts []string, whole string) bool      { return false }
 func vCallMethod(rcvr any, method string, args any, reply any) error { return nil }
+
+// processes: every interpreted goroutine belongs to a modelled OS process (inherited at `go`)
+func vCurProc() int    { return 0 }
+func vSetProc(p int)   {}
+func vKillProc(p int)  {}
+func vGoID() int       { return 0 }
+func vClone(x any) any { return x }
+func vCopyInto(dst, src any) {}
+func vNewLike(p any) any { return p }
+func vSetenvProc(proc int, k, v string) {}
